@@ -194,6 +194,8 @@ pub struct Gen {
     pub rng: Rng,
     /// sparse observation of calc_outcome in this run (decided once, emitted as the first op)
     sparse: Option<bool>,
+    /// property being judged (C02 runs never use values built through unsafe constructors)
+    prop: u32,
     /// the previous owner step was a pop or a special move: a good place for a fault
     hot: bool,
 }
@@ -207,7 +209,7 @@ fn uci_text(m: &RMove) -> String {
 
 impl Gen {
     pub fn new(sw: Swarm, rng: Rng) -> Gen {
-        Gen { sw, rng, hot: false, sparse: None }
+        Gen { sw, rng, hot: false, sparse: None, prop: 0 }
     }
 
     fn choose_legal(&mut self, info: &Info, w: &World) -> Option<RMove> {
@@ -259,6 +261,10 @@ impl Gen {
 
     /// A legal move in one of the five forms.
     fn legal_like(&mut self, info: &Info, m: &RMove) -> MoveLike {
+        // now and then through the unsafe-built Make wrappers (within their contract)
+        if self.prop != C02 && self.rng.chance(4) {
+            return if self.rng.chance(50) { MoveLike::Unchecked(*m) } else { MoveLike::TryUnchecked(*m) };
+        }
         let form = self.rng.weighted(&self.sw.form_w);
         let variant = self.rng.next_u64() as u32;
         match form {
@@ -304,6 +310,9 @@ impl Gen {
             0 => {
                 let exposing: Vec<RMove> = info.pseudo.iter().copied().filter(|m| !info.legal.contains(m)).collect();
                 if let Some(m) = self.rng.pick(&exposing).copied() {
+                    if self.prop != C02 && self.rng.chance(15) {
+                        return MoveLike::TryUnchecked(m);
+                    }
                     return match self.rng.below(4) {
                         0 => MoveLike::UciStr(uci_text(&m)),
                         1 => MoveLike::UciMove { src: m.src, dst: m.dst, promo: m.promo_piece() },
@@ -884,6 +893,7 @@ impl Gen {
 
     /// The scheduler: picks a runnable task and one operation from its alphabet.
     pub fn next_op(&mut self, w: &mut World, prop: u32) -> Op {
+        self.prop = prop;
         if self.sparse.is_none() {
             let sparse = prop == C14 && self.rng.chance(35);
             self.sparse = Some(sparse);
